@@ -26,7 +26,10 @@ def lib():
     from kappadata.wrappers.dataset_wrappers.shuffle_wrapper import ShuffleWrapper
     from kappadata.wrappers.dataset_wrappers.repeat_wrapper import RepeatWrapper
     from kappadata.wrappers.dataset_wrappers.subset_wrapper import SubsetWrapper
-    from kappadata.utils import getall_as_tensor as gat
+    import importlib
+    import sys
+    importlib.import_module("kappadata.utils.getall_as_tensor")
+    gat = sys.modules["kappadata.utils.getall_as_tensor"]
 
     class Base(KDDataset):
         """Root dataset with list semantics (negative indices count from the end, like a dataset backed by a list)."""
